@@ -9,6 +9,7 @@ Extraction "../ocaml/gen/ModelC03.ml"
   sha384 sha384_init sha384_finish sha512 sha512_init sha512_update sha512_finish
   sha512_224 sha512_224_init sha512_224_finish sha512_256 sha512_256_init sha512_256_finish
   hmac_spec hmacB_sm3 hmacB_sha1 hmacB_sha224 hmacB_sha256 hmacB_sha384 hmacB_sha512 hmacB_sha512_224 hmacB_sha512_256
+  sm3_digest_api sm3_digest_api_spec mac_verify
   sm3_kdf_stream sm2_kdf sm3_kdf_spec sm3_pbkdf2 sm3_pbkdf2_spec
   sm3_hkdf_extract sm3_hkdf_expand sm3_hkdf_extract_spec sm3_hkdf_expand_spec
   sha256_hkdf_extract sha256_hkdf_expand sha256_hkdf_extract_spec sha256_hkdf_expand_spec
